@@ -69,7 +69,7 @@ void vh_free(void *p)
 }
 
 #define NB 3                                   /* blocks per processing call in these obligations */
-uint8_t sym_key[48], sym_data[NB * BLK], sym_tw[NB * BLK], sym_handle[sizeof(OBJ_T)];
+uint8_t sym_key[48], sym_data[NB * BLK], sym_tw[NB * BLK], sym_handle[sizeof(OBJ_T)], sym_fill[sizeof(CTX_T)];
 static void sym_inputs(void) { SYM_U8A(sym_key); SYM_U8A(sym_data); SYM_U8A(sym_tw); SYM_U8A(sym_handle); SYM_U8A(sym_allocfail); SYM_VAL(sym_has128); SYM_VAL(sym_has256); }
 
 static int op_set_key(OBJ_T *o, const uint8_t *key, unsigned len)
@@ -138,7 +138,7 @@ void harness(void)
     for (int i = 0; i < MAXBLK; i++) ASSUME(sym_allocfail[i] == 0);
     memset(&o, 0, sizeof o);
     CHECK(P(init)(&o) == 1, "init succeeds");
-    { CTX_T nd; memcpy(o.ctx, &nd, sizeof nd); }              /* arbitrary key schedule content */
+    { SYM_U8A(sym_fill); memcpy(o.ctx, sym_fill, sizeof(CTX_T)); }    /* arbitrary key schedule content */
     P(cleanup)(&o);
     CHECK(n_live == 0 && n_badfree == 0, "the context is released exactly once");
     CHECK(n_dirty == 0, "every byte of the key schedule is zero before free");
